@@ -544,3 +544,61 @@ func c07H2Dispatch(c *Ctx, rule string) {
 		c.Unresolved(rule, fmt.Sprintf("exits of the HTTP/2 Dispatch loops (found %d)", n))
 	}
 }
+
+// c07H2PrefaceRetried (B2h): the HTTP/2 client preface is an incomplete unit like any other.
+// serverCodec.Decode consumes the 24 byte client preface before it reads frames. The first read of a connection may bring
+// fewer than 24 bytes (ReadPreface then answers ErrAGAIN and consumes nothing). Clause: the flag that makes Decode skip
+// ReadPreface is raised only on the success edge of ReadPreface (err == nil) - so a preface that arrived in pieces is
+// asked for again on the next Decode. A flag raised before the call (or on its failure) makes the second Decode parse
+// `PRI * HTTP/2.0...` as a frame header: the same bytes cut differently close the connection.
+func c07H2PrefaceRetried(c *Ctx, rule string) {
+	fn := c.M("pkg/protocol/http2", "serverCodec", "Decode")
+	if fn == nil {
+		c.Unresolved(rule, "http2 serverCodec.Decode")
+		return
+	}
+	rp := callsIn(fn, false, func(cc *ssa.CallCommon) bool { return methodName(cc) == "ReadPreface" })
+	if len(rp) != 1 {
+		c.Unresolved(rule, fmt.Sprintf("the ReadPreface call of serverCodec.Decode (found %d)", len(rp)))
+		return
+	}
+	call := rp[0].Instr.(*ssa.Call)
+	// the flag(s) whose false value leads to the call
+	var flags []string
+	for _, g := range guardsAt(call.Block()) {
+		if _, f, _, ok := loadedField(g.Cond); ok && !g.True {
+			flags = append(flags, f)
+		}
+	}
+	if len(flags) == 0 {
+		// ReadPreface on every Decode: nothing to skip (ReadPreface itself must then be idempotent; not this code base)
+		c.Unresolved(rule, "the flag that guards ReadPreface in serverCodec.Decode")
+		return
+	}
+	ok := true
+	why := ""
+	for _, fl := range flags {
+		for _, st := range storesToField(fn, "serverCodec", fl, false) {
+			if b, isB := constBool(st.Val); !isB || !b {
+				continue
+			}
+			onSuccess := false
+			if instrDominates(call, st) {
+				for _, g := range guardsAt(st.Block()) {
+					bo, isBO := g.Cond.(*ssa.BinOp)
+					if !isBO || bo.X != ssa.Value(call) || !isNilConst(bo.Y) {
+						continue
+					}
+					if (bo.Op == token.EQL && g.True) || (bo.Op == token.NEQ && !g.True) {
+						onSuccess = true
+					}
+				}
+			}
+			if !onSuccess {
+				ok = false
+				why = "serverCodec." + fl + " is raised at " + shortPos(c, st.Pos()) + " without ReadPreface having succeeded"
+			}
+		}
+	}
+	c.Check(rule, funcKey(fn)+":preface-asked-for-until-read", call.Pos(), ok, "the skip flag is raised only on ReadPreface's success edge", "the flag that makes Decode skip the client preface is raised although the preface has not been read ("+why+"): when the first read of a connection brings fewer than 24 bytes, the next Decode parses the preface as a frame header and the connection is closed - the same bytes in one read work")
+}
